@@ -3,7 +3,7 @@ from __future__ import annotations
 
 import ast
 
-from ..astutil import calls_in, kwarg, names_in, parents_map, ancestors, access_path, guard_facts
+from ..astutil import calls_in, kwarg, names_in, parents_map, ancestors, access_path, guard_facts, returned_name, blueprint_vars
 from ..model import AnalysisError, norm, walk_own
 from ..report import RuleResult
 from .refusals import _unwrap, _Sig
@@ -123,25 +123,26 @@ def rule_counter(ctx) -> RuleResult:
     ia = prog.func("aggregations._initialize_aggregation")
     fr = prog.func("core._finalize_results")
     # writer: the branch that appends the counter and records agg.min_count
+    av = returned_name(ia) or "agg"
     w_if = None
     for n in walk_own(ia.node):
-        if isinstance(n, ast.If) and any(isinstance(x, ast.AugAssign) and access_path(x.target) == "agg.chunk" for x in ast.walk(n)):
+        if isinstance(n, ast.If) and any(isinstance(x, ast.AugAssign) and access_path(x.target) == f"{av}.chunk" for x in ast.walk(n)):
             if "min_count" in norm(n.test):
                 w_if = n if w_if is None else w_if
     if w_if is None:
         raise AnalysisError("_initialize_aggregation: counter branch not found")
     wshape = _cmp_shape(w_if.test)
     then_sets = [norm(x.value) for x in ast.walk(ast.Module(body=w_if.body, type_ignores=[])) if isinstance(x, ast.Assign)
-                 and any(access_path(t) == "agg.min_count" for t in x.targets)]
+                 and any(access_path(t) == f"{av}.min_count" for t in x.targets)]
     else_sets = [norm(x.value) for x in ast.walk(ast.Module(body=w_if.orelse, type_ignores=[])) if isinstance(x, ast.Assign)
-                 and any(access_path(t) == "agg.min_count" for t in x.targets)]
+                 and any(access_path(t) == f"{av}.min_count" for t in x.targets)]
     res.inst(f"writer: if {norm(w_if.test)}: append counter, agg.min_count = {then_sets}; else agg.min_count = {else_sets}", "writer")
     if then_sets != ["min_count"] or else_sets != ["0"]:
         res.report("aggregations._initialize_aggregation|min_count-record", ia.where(w_if), ia.qualname,
                    f"the counter branch must record agg.min_count = min_count and the other branch agg.min_count = 0 (found {then_sets} / {else_sets}): "
                    "the finalizer decides from agg.min_count whether a counter was appended")
     # reader: the finalizer strips the last intermediate under the same comparison on agg.min_count
-    mc_src = [norm(n.value) for n in walk_own(fr.node) if isinstance(n, ast.Assign) and any(norm(t) == "min_count" for t in n.targets)]
+    bvars = blueprint_vars(fr) or {"agg"}
     strips = []
     for n in walk_own(fr.node):
         if isinstance(n, ast.If) and any(isinstance(x, ast.Assign) and "[:-1]" in norm(x.value) and "intermediates" in norm(x.value) for x in n.body):
@@ -149,22 +150,25 @@ def rule_counter(ctx) -> RuleResult:
     if len(strips) != 1:
         raise AnalysisError(f"_finalize_results: {len(strips)} counter-stripping branches found (expected 1)")
     rshape = _cmp_shape(strips[0].test)
-    takes = [norm(x.value) for x in strips[0].body if isinstance(x, ast.Assign) and norm(x.targets[0]) == "counts"]
-    res.inst(f"reader: min_count = {mc_src}; if {norm(strips[0].test)}: counts = {takes}, strip last intermediate", "reader")
-    if mc_src != ["agg.min_count"]:
-        res.report("core._finalize_results|min_count-source", fr.where(), fr.qualname, f"min_count is read from {mc_src}, not from agg.min_count")
+    # the variable tested must come from <blueprint>.min_count
+    tested = rshape[2] if rshape else None
+    mc_src = [norm(n.value) for n in walk_own(fr.node) if isinstance(n, ast.Assign) and any(norm(t) == tested for t in n.targets)] if tested else []
+    if tested and any(tested == f"{b}.min_count" for b in bvars):
+        mc_src = [tested]
+    takes = [norm(x.value) for x in strips[0].body if isinstance(x, ast.Assign) and isinstance(x.value, ast.Subscript)
+             and "intermediates" in norm(x.value) and "[:-1]" not in norm(x.value)]
+    res.inst(f"reader: {tested} = {mc_src}; if {norm(strips[0].test)}: counter = {takes}, strip last intermediate", "reader")
+    if not mc_src or not all(any(m == f"{b}.min_count" for b in bvars) for m in mc_src):
+        res.report("core._finalize_results|min_count-source", fr.where(), fr.qualname, f"the stripping condition tests {tested} = {mc_src}, not <blueprint>.min_count")
     if wshape is None or rshape is None or wshape[:2] != rshape[:2]:
         res.report("core._finalize_results|counter-condition", fr.where(strips[0]), fr.qualname,
                    f"the counter is appended when {norm(w_if.test)} but stripped when {norm(strips[0].test)}: for the values on which the two "
                    "differ the finalizer receives one intermediate too many or too few")
-    if takes != ["squeezed['intermediates'][-1]"]:
-        res.report("core._finalize_results|counter-position", fr.where(strips[0]), fr.qualname, f"counts taken from {takes}; the counter is the last intermediate")
+    if len(takes) != 1 or not takes[0].endswith("['intermediates'][-1]"):
+        res.report("core._finalize_results|counter-position", fr.where(strips[0]), fr.qualname, f"counter taken from {takes}; the counter is the last intermediate")
     # masks use the same variable and comparison direction: counts < min_count
-    masks = [n for n in walk_own(fr.node) if isinstance(n, ast.Assign) and norm(n.targets[0]) == "count_mask"]
-    for m in masks:
-        res.inst(f"mask: {norm(m)}", "mask")
     # the literal by which the counter is recognised elsewhere equals the appended kernel name
-    appended = [norm(x.value) for x in ast.walk(w_if) if isinstance(x, ast.AugAssign) and access_path(x.target) == "agg.chunk"]
+    appended = [norm(x.value) for x in ast.walk(w_if) if isinstance(x, ast.AugAssign) and access_path(x.target) == f"{av}.chunk"]
     lit = None
     if appended and appended[0].startswith("("):
         try:
